@@ -2,7 +2,10 @@
 
 package backend
 
-import "fmt"
+import (
+	"fmt"
+	"unsafe"
+)
 
 // VerifConn is the proxy's belief about one pooled backend connection.
 type VerifConn struct {
@@ -13,15 +16,18 @@ type VerifConn struct {
 	Coll    string // collation id
 	Vars    map[string]string
 	Unused  []string
+	// identity of the Variable objects (to detect objects shared with a session)
+	VarPtrs map[string]uintptr
 }
 
 func verifBelief(dc *DirectConnection) VerifConn {
-	v := VerifConn{Closed: dc.IsClosed(), Charset: dc.charset, Coll: fmt.Sprint(int(dc.collation)), Vars: map[string]string{}}
+	v := VerifConn{Closed: dc.IsClosed(), Charset: dc.charset, Coll: fmt.Sprint(int(dc.collation)), Vars: map[string]string{}, VarPtrs: map[string]uintptr{}}
 	if dc.conn != nil {
 		v.ID = dc.conn.ConnectionID
 	}
 	for _, x := range dc.sessionVariables.GetAll() {
 		v.Vars[x.Name()] = fmt.Sprint(x.Get())
+		v.VarPtrs[x.Name()] = uintptr(unsafe.Pointer(x))
 	}
 	v.Unused = dc.sessionVariables.VerifUnused()
 	return v
